@@ -256,7 +256,7 @@ fn erase_decimals(s: &str) -> String {
 /// A scaling run: the same amplified input with a quarter, a half and all of its generated
 /// items, in this order and in one process.  "Time proportional to the input" means the last
 /// costs about four times the first; sixteen times is quadratic.  The verdict needs a
-/// measurable full-size run (>= 100 ms of CPU) and a ratio above 9; the driver confirms it by
+/// measurable full-size run (>= 100 ms of CPU) and a ratio above 10; the driver confirms it by
 /// two more isolated executions.  The result reported is that of the full-size run.
 fn exec_scaling(ctx: &mut Ctx, spec: &RunSpec, idx: u64) -> RunResult {
     let mut times: Vec<i64> = Vec::new();
@@ -291,7 +291,7 @@ fn exec_scaling(ctx: &mut Ctx, spec: &RunSpec, idx: u64) -> RunResult {
     let (t1, t4) = (times[0].max(1000), times[2]);
     // how the ratios are distributed is part of the evidence (rare-condition probes)
     last.probes.push(if t4 >= 100_000 { format!("scaling_ratio_{:02}", ((t4 as f64 / t1 as f64) as u64).min(20)) } else { "scaling_full_size_below_100ms".to_string() });
-    if t4 >= 100_000 && t4 as f64 / t1 as f64 > 9.0 {
+    if t4 >= 100_000 && t4 as f64 / t1 as f64 > 10.0 {
         let kind = spec
             .stored_faults
             .iter()
